@@ -331,7 +331,19 @@ func init() {
 	models[tm+"Unix"] = func(e *Exec, a []Value) []Value { return []Value{timeOf(e, a[0]).Sec} }
 	models[tm+"UnixNano"] = func(e *Exec, a []Value) []Value {
 		t := timeOf(e, a[0])
-		return []Value{e.wrapInt(IAdd(IMul(t.Sec, IntI(1000000000)), t.Nsec), types.Typ[types.Int64])}
+		// int64 wrap-around over the whole Timestamp range (years 1..9999 exceed int64 nanoseconds many times over):
+		// n - 2^64 * floor((n + 2^63) / 2^64)
+		n := IAdd(IMul(t.Sec, IntI(1000000000)), t.Nsec)
+		two := IntConst(pow2(64))
+		return []Value{ISub(n, IMul(two, IDiv(IAdd(n, IntConst(pow2(63))), two)))}
+	}
+	du := "(time.Duration)."
+	models[du+"Nanoseconds"] = func(e *Exec, a []Value) []Value { return []Value{toIntSigned(asTerm(e, a[0]))} }
+	models[du+"Microseconds"] = func(e *Exec, a []Value) []Value {
+		return []Value{goQuo(toIntSigned(asTerm(e, a[0])), IntI(1000))}
+	}
+	models[du+"Milliseconds"] = func(e *Exec, a []Value) []Value {
+		return []Value{goQuo(toIntSigned(asTerm(e, a[0])), IntI(1000000))}
 	}
 	models[tm+"Nanosecond"] = func(e *Exec, a []Value) []Value { return []Value{timeOf(e, a[0]).Nsec} }
 	models[tm+"IsZero"] = func(e *Exec, a []Value) []Value {
